@@ -1693,6 +1693,20 @@ impl<'a> UserModel<'a> {
         value: &str,
     ) -> Result<(), String> {
         let sheet = range.sheet;
+        // Validate the range before touching any cell, so that a range that runs off the
+        // grid does not leave a partial edit behind
+        self.model.workbook.worksheet(sheet)?;
+        if range.width > 0 && range.height > 0 {
+            let last_row = range.row.checked_add(range.height - 1);
+            let last_column = range.column.checked_add(range.width - 1);
+            if !is_valid_row(range.row)
+                || !is_valid_column_number(range.column)
+                || !last_row.is_some_and(is_valid_row)
+                || !last_column.is_some_and(is_valid_column_number)
+            {
+                return Err("Incorrect row or column".to_string());
+            }
+        }
         let mut diff_list = Vec::new();
         if range.row == 1 && range.height == LAST_ROW {
             // Full columns
